@@ -14,7 +14,7 @@ RULE = (
     "(a) macro helper: every (type, controller) pair alone (thorough: all 502; quick: one per type + every non-range kind), generated multi-target "
     "calls of 1..16 targets, 17 targets and duplicate-module calls, name/initial given or omitted; (b) propagation: Hypothesis draws (target "
     "type+ranged controller, window, gain, quantization, curve) tuples and for every tuple the whole input axis 0..32768 is enumerated through "
-    "MultiCtl.value inside a project (1..3 targets per MultiCtl incl. a link whose mapping names no controller, a link that was made and removed again, and a link to a module lacking the mapped controller); (c) the same tuples x20 through "
+    "MultiCtl.value inside a project (1..4 targets per MultiCtl drawn per range kind so that compact / negative-minimum / no-offset / ordinary targets mix in one fan-out, the remaining MultiCtl controllers out_offset / response / sample_rate at drawn values, incl. a link whose mapping names no controller, a link that was made and removed again, and a link to a module lacking the mapped controller); (c) the same tuples x20 through "
     "convert_value directly with the arguments on_value_changed passes. distinct = tuple hash; non-trivial = window strictly inside (0,32768) or "
     "reversed, with gain != 256 or quantization < 32768, or a non-default curve"
 )
